@@ -118,6 +118,8 @@ def run(prop, tier, seed):
 
         findings = [f for f in common.known_findings() if f.get('property') == prop and f.get('status') == 'open']
         reported = set()
+        # report (and shrink) the smallest disagreeing inputs first: the cheapest to shrink and to read
+        bad = sorted(bad, key=lambda b: (len(cases[b[0]].term), b[0]))
         for idx, subs in bad:
             case = cases[idx]
             case, subs = shrink(mod, case, subs, workdir)
